@@ -38,6 +38,10 @@ package js_printer
 //@   site ascii-only: [C01] append requires p.options.ASCIIOnly && !opaque ==> each(elem < 128)
 //@   site delimiter-escaped: [C01] append requires !opaque ==> each(int32(elem) == quote ==> hasPrev && prev == '\\')
 //@   site raw-newline: [C01] append requires !opaque ==> each((elem == '\n' ==> quote == '`' || (hasPrev && prev == '\\')) && elem != '\r')
+// C01, escapes: `\0` is the NUL escape only when NO decimal digit follows (ECMA-262 12.9.4: `\0 [lookahead not in
+// DecimalDigit]`); `\00`..`\07` are legacy octal escapes with another value and `\08`, `\09` are errors in strict
+// code and in templates. So the short form may be emitted only when the next code unit is not '0'..'9'.
+//@   site nul-short-form-not-before-digit: [C01] append lit "\\0" requires i >= n || text[i] < '0' || text[i] > '9'
 //@   loop 0 invariant 0 <= i && i <= n && n == len(text) && len(temp) == 4
 //@   loop 0 invariant wrapLongLines ==> p.options.LineLimit > 0 && -i - p.options.LineLimit <= startLineLength && startLineLength <= p.options.LineLimit
 //@   loop 0 decreases n - i
@@ -86,3 +90,13 @@ package js_printer
 // precedence level of the position it stands in: printNumber decides from that level whether a negative value needs
 // parentheses (`(-1).toString()` versus `-1 .toString()`). Every printNumber call in printExpr passes printExpr's own level.
 //@ flow numbers-are-printed-at-their-own-level C06 C01: func=(*printer).printExpr ; in=js_printer ; site=call printNumber ; argpath=2:level
+
+// C06: a TypeScript enum member is a STRING member iff its recorded String value is non-nil (`enum E { None = '' }`
+// is a string member whose value is the empty string); the Number field is meaningful for the other members only,
+// so every read of it must sit on the "String is nil" side of a test of exactly that.
+//@ guarded enum-number-only-for-non-string-members C06: func=* ; in=js_printer ; site=load TSEnumValue.Number ; scenario=empty_string_enum_member_late_fold ; require-any=true:*.String==nil || false:*.String!=nil
+
+// C03: `test ? yes : no` may be replaced by one branch only when the test's value is known AND evaluating the test
+// has no side effect (ECMA-262 13.14.1: the test IS evaluated before a branch is chosen): `(f() || ENABLED) ? a : b`
+// with the cross-module constant ENABLED = true has a known outcome but still calls f().
+//@ guarded late-conditional-fold-keeps-test-side-effects C03: func=(*printer).lateConstantFoldUnaryOrBinaryOrIfExpr ; in=js_printer ; site=call lateConstantFoldUnaryOrBinaryOrIfExpr ; when-arg=1:*.Yes OR *.NoOrNil OR *.No ; scenario=late_conditional_fold_drops_call ; require=true:call ToBooleanWithSideEffects(*)#1==1 && true:call ToBooleanWithSideEffects(*)#2
